@@ -17,11 +17,18 @@ CLAIMED = {
 
 CLAIMED.update({
     'C12': dict(
-        text='Theorem C12_rows_chunk_independent: for EVERY partition of a text into non-empty pieces and every chunk size >= 1 the Python reader model returns the lines of the whole text '
+        text='Theorems C12_rows_chunk_independent and C12_records_chunk_independent (header, records, warnings, error through comment skipping, RFC assembly and header logic depend only on the content): for EVERY partition of a text into non-empty pieces and every chunk size >= 1 the Python reader model returns the lines of the whole text '
              '(LF/CR/CRLF, CRLF across reads = one break, unterminated last line, BOM dropped); proved by invariant + induction, no size bound. The real CSVRecordIterator is tied to the model '
              'by running it over ALL partitions x ALL chunk sizes of every short text (and byte partitions of multi-byte samples) and comparing records, header and warnings.',
         note='Trusted: Lean kernel + standard axioms; TextIOWrapper decoding/universal newlines are modelled (CR/CRLF -> LF), tied dynamically; a read returns "" only at EOF.',
         ref='DESIGN.md section 7, C12'),
+    'C10': dict(
+        text='Line level: C10_line_roundtrip_quoted (every good delimiter, single- or multi-character; no field condition for one-character delimiters), simple and monocolumn round trips; '
+             'file level: C10_file_lines_roundtrip for LF/CRLF/CR; lossy output warns (C10_lossy_simple_warns, C10_none_sets_flag); C10_overlap_counterexample shows why multi-character '
+             'delimiters need the overlap hypothesis. The real writer+reader pair (py and js) is tied to the model on written text, read-back records and all warnings, and checked against an '
+             'independent representability oracle.',
+        note='Partial: the quoted_rfc multi-line record assembly and the whitespace policy round trip are tied by the correspondence, not proved; codecs trusted.',
+        ref='DESIGN.md section 7, C10'),
     'C17': dict(
         text='Theorem C17_like_correct: the token/regex machine produced by like_to_regex matches exactly the SQL LIKE specification for every pattern and every single-line text '
              '(both Python and JS `.`/`$` semantics); C17_metachars_literal; the real engines are tied by exhaustive short pairs over the 14-symbol alphabet through `select like(a1,a2)`.',
